@@ -28,3 +28,24 @@ Example default_rejects :
   ref_headers hcfg_default 4 0 [65;58;32;1;13;10;13;10]%N = (Error HeaderValue, []) /\
   ref_headers hcfg_default 4 0 [65;58;32;98;32;13;10;13;10]%N = (Complete 9, [(Sub 0 [65%N], Sub 3 [98%N])]).
 Proof. vm_compute. repeat split. Qed.
+
+(* ---- tie to the source: every statement above is about Model.v / Api.v; Proofs/Src*.v prove that the
+   functions TRANSLATED from /repo/src/lib.rs on this run (Generated/Lib.v, LibApi.v) compute the same
+   results, for every environment whose scanners only move forward (all concrete backends do), so each
+   theorem of this file holds of the translated source by rewriting with `source_tie`.  Only the entry-point
+   families this property speaks about are imported (Req, Resp, PH) ---- *)
+From HV Require Import Backends.
+From HV.Proofs Require Import Mono BackendsFwd SrcReq SrcResp SrcPH.
+Theorem source_tie : forall E, env_fwd E -> request_source_is_model E /\ response_source_is_model E /\ headers_source_is_model E.
+Proof. intros E HE. repeat split; first [apply src_tie_request | apply src_tie_response | apply src_tie_headers]; exact HE. Qed.
+Print Assumptions source_tie.
+Theorem source_tie_backends : forall W be, request_source_is_model (env_of W be) /\ response_source_is_model (env_of W be) /\ headers_source_is_model (env_of W be).
+Proof. intros W be. apply source_tie, backends_fwd. Qed.
+Print Assumptions source_tie_backends.
+
+Theorem src_headers_default_ref_eq : forall E, env_ok E -> env_fwd E -> forall src dst, bytes_ok src ->
+  src_parse_headers E src dst =
+  (let (st, hs) := ref_headers hcfg_default (length dst) 0 src in
+   (st, match st with Complete _ => written_of hs | _ => [] end, slots_of hs dst)).
+Proof. intros E HE HF src dst Hb. rewrite src_parse_headers_eq by exact HF. apply parse_headers_ref; assumption. Qed.
+Print Assumptions src_headers_default_ref_eq.
